@@ -196,6 +196,11 @@ type target struct {
 
 // classOf groups table rows into input classes.
 var classOf = map[string]string{
+	"field-recursive-pointer-type":                 "recursive-pointer-type",
+	"map-of-recursive-pointer-type":                "recursive-pointer-type",
+	"recursive-pointer-type-prefilled":             "recursive-pointer-type",
+	"recursive-map-slice-type-prefilled":           "recursive-map-slice-type",
+	"field-rebranded-config-value-inline":          "field-config-value-inline",
 	"named-interface":                              "unpack-into-nil-interface",
 	"nonempty-interface-nil":                       "unpack-into-nil-interface",
 	"pointer-to-error":                             "unpack-into-nil-interface",
@@ -265,7 +270,9 @@ func zeroPtr(sample interface{}) func() interface{} {
 var targetTable = func() []target {
 	t := append(buildTargets(), validatorRows()...)
 	for i := range t {
-		t[i].class = t[i].label
+		if t[i].class == "" {
+			t[i].class = t[i].label
+		}
 		if c, ok := classOf[t[i].label]; ok {
 			t[i].class = c
 		}
@@ -291,7 +298,11 @@ func validatorRows() []target {
 		for _, k := range kinds {
 			st := reflect.StructOf([]reflect.StructField{{Name: "A", Type: k.t, Tag: reflect.StructTag(fmt.Sprintf(`config:"a" validate:"%s"`, v))}})
 			label := "validate-" + strings.SplitN(v, "=", 2)[0] + "-on-" + k.name
-			out = append(out, target{label: label, mk: func() interface{} { return reflect.New(st).Interface() }})
+			class := "validator-tag-on-" + k.name
+			if strings.Contains(k.name, "array") && !strings.HasPrefix(k.name, "pointer") {
+				class = "validator-tag-on-array"
+			}
+			out = append(out, target{label: label, class: class, mk: func() interface{} { return reflect.New(st).Interface() }})
 		}
 	}
 	return out
@@ -672,6 +683,10 @@ func buildTargets() []target {
 
 		// recursive types
 		{label: "recursive-pointer-type", mk: func() interface{} { return &recN{} }},
+		{label: "field-recursive-pointer-type", mk: zeroPtr(struct {
+			A recN `config:"a"`
+		}{})},
+		{label: "map-of-recursive-pointer-type", mk: func() interface{} { return &map[string]*recN{} }},
 		{label: "recursive-pointer-type-prefilled", mk: func() interface{} { return &recN{Next: &recN{Next: &recN{V: 3}, V: 2}, V: 1} }},
 		{label: "recursive-map-slice-type", mk: func() interface{} { return &recM{} }},
 		{label: "recursive-map-slice-type-prefilled", mk: func() interface{} {
@@ -790,6 +805,12 @@ func buildTargets() []target {
 			A *myCfg `config:"a"`
 			V myCfg  `config:"v"`
 		}{})},
+		{label: "field-config-value-inline", mk: zeroPtr(struct {
+			A ucfg.Config `config:",inline"`
+		}{})},
+		{label: "field-rebranded-config-value-inline", mk: zeroPtr(struct {
+			A myCfg `config:",inline"`
+		}{})},
 		{label: "field-config-inline", mk: zeroPtr(struct {
 			A *ucfg.Config `config:",inline"`
 		}{})},
@@ -850,6 +871,9 @@ var fixtures = []fixture{
 		return mp{"a": "${v}", "v": mp{"v": 5, "a": "${x}"}, "x": li{1, 2, 3}, "next": "${v.v}"}
 	}},
 	{"references-cyclic", true, func() interface{} { return mp{"a": "${a}", "v": "${next}", "next": "${v}", "x": mp{"x": "${x}"}} }},
+	{"references-to-ancestors", true, func() interface{} {
+		return mp{"a": mp{"next": "${a}", "v": 1}, "next": "${x}", "x": mp{"next": "${x}", "a": li{"${x}"}}, "v": mp{"next": mp{"next": "${v}"}}}
+	}},
 	{"references-unresolvable", true, func() interface{} { return mp{"a": "${nope}", "v": li{"${nope}"}, "next": mp{"v": "${nope:?no}"}} }},
 	{"big-numbers", false, func() interface{} {
 		return mp{"a": uint64(1) << 63, "v": -1 << 63, "next": 1e300, "x": "99999999999999999999"}
